@@ -11,7 +11,8 @@ Theorem c06_source_shape :
   types_column_type_codes = column_type_codes /\ packets_string_param_types = string_types /\
   (* long data is attached by COM_STMT_SEND_LONG_DATA and discarded by every execution before the query runs *)
   connection_connection_handle_stmt_execute_ok = true /\ connection_connection_handle_stmt_send_long_data_ok = true /\
-  connection_connection_handle_stmt_prepare_ok = true /\ connection_connection_handle_stmt_reset_ok = true.
+  connection_connection_handle_stmt_prepare_ok = true /\ connection_connection_handle_stmt_reset_ok = true /\
+  types_fixed_width_ok = true /\ types_read_uint_len_ok = true /\ types_read_str_len_ok = true.
 Proof. repeat split; reflexivity. Qed.
 
 (* the one-pass scanner recognises exactly the positions of the placeholder regex:
